@@ -4,6 +4,8 @@ parser, the Never-source printer and the s-expression printer (`nmdrv src`).
 Nodes are Python lists `[tag, ...]`; types are tuples; functions/params are dicts.
   types : ("bool",) ("int",) ("long",) ("float",) ("double",) ("char",) ("string",)
           ("named", name) ("arr", ndims, elem) ("func", [param dicts], ret) ("tuple", [types])
+          ("range", ndims)  `[.., ..] : range`      ("slice", ndims, elem)  `[.., ..] : elem`
+          a range / slice parameter lists its bound names in "dims": [f1, t1, f2, t2, ...] (or [] when anonymous)
   expr  : see `to_sexpr` — one case per constructor of `Never.Src.Expr`.
 """
 import struct
@@ -181,6 +183,7 @@ class Parser:
                 self.adv(); fields = []
                 while not self.isp("}"):
                     p = self.param(); self.expect(";")
+                    self.field_ok(p)
                     fields.append((p["name"], p["ty"], p["mut"]))
                 self.adv()
                 val += 1
@@ -204,26 +207,57 @@ class Parser:
         fields = []
         while not self.isp("}"):
             p = self.param(); self.expect(";")
+            self.field_ok(p)
             fields.append((p["name"], p["ty"], p["mut"]))
         self.adv()
         self.recs[name] = fields
 
+    def field_ok(self, p):
+        if p["ty"][0] in ("range", "slice") and (p["dims"] or p["name"] is None):
+            raise Unsupported("record field of range/slice type with bound names (r.from)")
+
     # ---- types / params
     def dims(self):
-        """after '[' : dim names; returns list of names, consumes ']'"""
+        """after '[' : dim names of an array type, or the `f .. t` pairs of a range / slice type; consumes ']'.
+        returns ("arr", names) or ("rng", ndims, [f1, t1, ...] or [])"""
+        if self.isp("..") or (self.peek()[0] == "id" and self.isp("..", 1)):
+            n, names, anon = 0, [], 0
+            while True:
+                if self.isp(".."):
+                    self.adv(); anon += 1
+                else:
+                    f = self.ident(); self.expect(".."); t = self.ident()
+                    names += [f, t]
+                n += 1
+                if self.isp(","):
+                    self.adv(); continue
+                break
+            self.expect("]")
+            if anon and names:
+                raise Unsupported("range/slice type with some bounds named and some not")
+            return ("rng", n, names)
         ds = []
         while True:
-            if self.isp(".."):
-                raise Unsupported("range/slice type")
-            d = self.ident()
-            if self.isp(".."):
-                raise Unsupported("range/slice type")
-            ds.append(d)
+            ds.append(self.ident())
             if self.isp(","):
                 self.adv(); continue
             break
         self.expect("]")
-        return ds
+        return ("arr", ds)
+
+    def bracket_type(self, name):
+        """after '[' of `[...] : T` / `name[...] : T`"""
+        d = self.dims(); self.expect(":")
+        if d[0] == "arr":
+            if self.iskw("range"):
+                raise ParseError("dimension names before `range`")
+            el = self.param()
+            return dict(name=name, ty=("arr", len(d[1]), el["ty"]), dims=d[1])
+        if self.iskw("range"):
+            self.adv()
+            return dict(name=name, ty=("range", d[1]), dims=d[2])
+        el = self.param()
+        return dict(name=name, ty=("slice", d[1], el["ty"]), dims=d[2])
 
     def param(self):
         mut = None
@@ -253,11 +287,8 @@ class Parser:
         if k == "kw" and v in ("void", "c_ptr", "range"):
             raise Unsupported("type " + v)
         if self.isp("["):
-            self.adv(); ds = self.dims(); self.expect(":")
-            if self.iskw("range"):
-                raise Unsupported("range type")
-            el = self.param()
-            return dict(name=None, ty=("arr", len(ds), el["ty"]), dims=ds)
+            self.adv()
+            return self.bracket_type(None)
         if self.isp("("):
             self.adv(); ps = self.param_list()
             if self.isp("->"):
@@ -281,11 +312,8 @@ class Parser:
                     raise Unsupported("module type")
                 return dict(name=name, ty=("named", tn), dims=[])
             if self.isp("["):
-                self.adv(); ds = self.dims(); self.expect(":")
-                if self.iskw("range"):
-                    raise Unsupported("range type")
-                el = self.param()
-                return dict(name=name, ty=("arr", len(ds), el["ty"]), dims=ds)
+                self.adv()
+                return self.bracket_type(name)
             if self.isp("("):
                 self.adv(); ps = self.param_list(); self.expect("->"); r = self.param()
                 return dict(name=name, ty=("func", ps, r["ty"]), dims=[])
@@ -428,12 +456,15 @@ class Parser:
                 self.adv()
                 first = self.expr()
                 if self.isp(".."):
-                    raise Unsupported("slice")
+                    self.adv(); bounds = [first, self.expr()]
+                    while self.isp(","):
+                        self.adv(); bounds.append(self.expr()); self.expect(".."); bounds.append(self.expr())
+                    self.expect("]")
+                    e = ["slice", e, bounds]
+                    continue
                 idx = [first]
                 while self.isp(","):
                     self.adv(); idx.append(self.expr())
-                    if self.isp(".."):
-                        raise Unsupported("slice")
                 self.expect("]")
                 e = ["index", e, idx]
             elif self.isp("."):
@@ -603,7 +634,11 @@ class Parser:
                     self.i = save
             first = self.expr()
             if self.isp(".."):
-                raise Unsupported("range")
+                self.adv(); bounds = [first, self.expr()]
+                while self.isp(","):
+                    self.adv(); bounds.append(self.expr()); self.expect(".."); bounds.append(self.expr())
+                self.expect("]")
+                return ["range", bounds]
             if self.isp("|"):
                 self.adv(); quals = []
                 while True:
@@ -615,6 +650,8 @@ class Parser:
                         self.adv(); continue
                     break
                 self.expect("]"); self.expect(":"); el = self.param()
+                if el["mut"]:
+                    raise Unsupported("qualified element type")
                 return ["listcomp", el["ty"], first, quals]
             elems = [first]
             while self.isp(","):
@@ -656,6 +693,10 @@ def coarse(ty, prog):
         return k
     if k == "arr":
         return "arr"
+    if k == "range":
+        return "rng"
+    if k == "slice":
+        return "slc"
     if k == "func":
         return "func"
     if k == "tuple":
@@ -676,7 +717,7 @@ def sx(x):
     return str(x)
 
 def func_sx(f, prog):
-    ps = [["p", p["name"] if p["name"] else "-", coarse(p["ty"], prog)] + list(p["dims"] if p["ty"][0] == "arr" else []) for p in f["params"]]
+    ps = [["p", p["name"] if p["name"] else "-", coarse(p["ty"], prog)] + list(p["dims"] if p["ty"][0] in ("arr", "range", "slice") else []) for p in f["params"]]
     cs = [["catch", c[0] if c[0] else "*", expr_sx(c[1], prog)] for c in f["catches"]]
     return ["func", f["id"], f["name"] if f["name"] else "-", ["params"] + ps, coarse(f["ret"], prog), expr_sx(f["body"], prog), ["catches"] + cs]
 
@@ -753,6 +794,10 @@ def expr_sx(e, prog):
     if t == "listcomp":
         qs = [["gen", q[1], R(q[2])] if q[0] == "gen" else ["filter", R(q[1])] for q in e[3]]
         return ["listcomp", coarse(e[1], prog), R(e[2])] + qs
+    if t == "range":
+        return ["range"] + [R(a) for a in e[1]]
+    if t == "slice":
+        return ["slice", R(e[1])] + [R(a) for a in e[2]]
     raise Unsupported("expression %s" % t)
 
 def prog_sexpr(prog):
@@ -779,6 +824,10 @@ def ty_src(ty):
         return ty[1]
     if k == "arr":
         return "[" + ",".join(["_"] * ty[1]) + "] : " + ty_src(ty[2])
+    if k == "range":
+        return "[" + ", ".join([".."] * ty[1]) + "] : range"
+    if k == "slice":
+        return "[" + ", ".join([".."] * ty[1]) + "] : " + ty_src(ty[2])
     if k == "func":
         return "(" + ", ".join(param_src(p, anon=True) for p in ty[1]) + ") -> " + ty_src(ty[2])
     if k == "tuple":
@@ -788,9 +837,13 @@ def ty_src(ty):
 def param_src(p, anon=False):
     ty, name = p["ty"], p["name"]
     mut = (p.get("mut") + " ") if p.get("mut") else ""
+    k = ty[0]
+    if k in ("range", "slice") and (name is not None or p.get("dims")):
+        ds = p.get("dims") or []
+        inner = ", ".join("%s .. %s" % (ds[2 * i], ds[2 * i + 1]) for i in range(ty[1])) if ds else ", ".join([".."] * ty[1])
+        return "%s%s[%s] : %s" % (mut, name or "", inner, "range" if k == "range" else ty_src(ty[2]))
     if name is None or anon and False:
         return mut + ty_src(ty)
-    k = ty[0]
     if k in BASIC:
         return "%s%s : %s" % (mut, name, k)
     if k == "named":
@@ -909,7 +962,7 @@ def expr_src(e, ind=0):
     if t == "arrnew":
         return "({[ %s ]} : %s)" % (", ".join(S(a) for a in e[2]), ty_src(e[1]))
     if t == "index":
-        return "%s[%s]" % (S(e[1]) if e[1][0] in ("var", "index", "field") else "(" + S(e[1]) + ")", ", ".join(S(a) for a in e[2]))
+        return "%s[%s]" % (S(e[1]) if e[1][0] in ("var", "index", "field", "slice", "range") else "(" + S(e[1]) + ")", ", ".join(S(a) for a in e[2]))
     if t == "record":
         return "%s(%s)" % (e[1], ", ".join(S(a) for a in e[2]))
     if t == "tuple":
@@ -938,6 +991,13 @@ def expr_src(e, ind=0):
     if t == "listcomp":
         qs = "; ".join(("%s in %s" % (q[1], S(q[2]))) if q[0] == "gen" else S(q[1]) for q in e[3])
         return "([ %s | %s ] : %s)" % (S(e[2]), qs, ty_src(e[1]))
+    if t == "range":
+        b = e[1]
+        return "[ " + ", ".join("%s .. %s" % (S(b[2 * i]), S(b[2 * i + 1])) for i in range(len(b) // 2)) + " ]"
+    if t == "slice":
+        b = e[2]
+        return "%s[ %s ]" % (S(e[1]) if e[1][0] in ("var", "index", "field", "slice", "range") else "(" + S(e[1]) + ")",
+                             ", ".join("%s .. %s" % (S(b[2 * i]), S(b[2 * i + 1])) for i in range(len(b) // 2)))
     raise Unsupported("expression %s" % t)
 
 def prog_src(prog):
